@@ -64,3 +64,33 @@ pub fn run(random: usize, seed: u64, tr: &mut Trace) {
         }
     }
 }
+
+
+/// SoVersion model cases: each abstract component sequence exported by TLC is written out as a file name and parsed by the
+/// crate (through the public name/version function); the four fields are the datum.
+pub fn sover(input: &str, tr: &mut Trace) {
+    for line in std::fs::read_to_string(input).unwrap_or_default().lines() {
+        let Ok(c) = serde_json::from_str::<serde_json::Value>(line) else { continue };
+        let kinds: Vec<String> = c["kinds"].as_array().map(|a| a.iter().map(|k| k.as_str().unwrap_or("").to_string()).collect()).unwrap_or_default();
+        let comps: Vec<String> = kinds.iter().enumerate().map(|(p, k)| match k.as_str() {
+            "num" => format!("{}", 3 + p),
+            "big" => "99999999999".to_string(),
+            "empty" => String::new(),
+            "a" => "rc".to_string(),
+            "nan" => format!("{}rc{}", 20 + p, 40 + p),
+            "na" => format!("{}beta", 20 + p),
+            "an" => format!("rc{}", 40 + p),
+            _ => "?".to_string(),
+        }).collect();
+        let name = format!("/usr/lib/libmodel.so.{}", comps.join("."));
+        let m = synth::mapping(0x1000, 0x3000, "r-xp", Some(&name));
+        let res = std::panic::catch_unwind(|| m.get_mapping_effective_path_name_and_version(Some("libmodel.so.1".to_string())));
+        let got = match res {
+            Ok(Ok((_, _, Some(v)))) => json!([v.major, v.minor, v.patch, v.prerelease]),
+            Ok(Ok((_, _, None))) => json!("none"),
+            Ok(Err(_)) => json!("err"),
+            Err(_) => json!("panic"),
+        };
+        tr.emit(json!({"ev":"sover","kinds":kinds,"name":name,"got":got}));
+    }
+}
